@@ -75,6 +75,10 @@ RelClause(e) ==
 ConvClause(e) ==
   IF "args_kept" \in DOMAIN e /\ ~e.args_kept THEN "ConverterLeavesItsArgumentAlone"
   ELSE IF "lam_of_E_vec" \in DOMAIN e /\ (~Close(e.lam_of_E_vec, e.lam_of_E, -14) \/ ~Close(e.E_of_lam_vec, e.E_of_lam, -14)) THEN "ConverterVectorIsPointwise"
+  ELSE IF "ints" \in DOMAIN e /\ (\/ \E i \in DOMAIN e.ints.lam_of_E : ~Close(e.ints.lam_of_E[i], e.lam_of_E, -14)
+                                  \/ \E i \in DOMAIN e.ints.E_of_lam : ~Close(e.ints.E_of_lam[i], e.E_of_lam, -14)
+                                  \/ \E i \in DOMAIN e.ints.lam_of_v : ~Close(e.ints.lam_of_v[i], e.lam_of_v, -14))
+       THEN "ConverterWholeNumbersAreNumbers"
   ELSE IF ~Close(Mul(e.E, Sq(e.lam_of_E)), KE, -12) THEN "EnergyWavelengthProduct"
   ELSE IF ~Close(e.E_back, e.E, -12) THEN "EnergyRoundTrip"
   ELSE IF ~Close(Mul(e.E_of_lam, Sq(e.lam)), KE, -12) THEN "WavelengthEnergyProduct"
